@@ -27,6 +27,8 @@ func init() {
 		},
 		Run: runC43,
 		Fixtures: []Fixture{
+			{Name: "seeded C43-1 shape: the IPv6 re-evaluation trigger compares the IPv4 CIDRs", File: "felix/calc/l3_route_resolver.go",
+				Old: "\t\tif oldNodeInfo.V6CIDR != myNewV6CIDR {\n", New: "\t\tif oldNodeInfo.V4CIDR != myNewV4CIDR {\n", Expect: "C43.twin/L3RouteResolver.onNodeUpdate"},
 			{Name: "same-subnet is pool flag OR node-in-subnet", File: "felix/calc/l3_route_resolver.go",
 				Old: "rt.SameSubnet = poolAllowsCrossSubnet && c.nodeInOurSubnet(rt.DstNodeName, ipFamily)", New: "rt.SameSubnet = poolAllowsCrossSubnet || c.nodeInOurSubnet(rt.DstNodeName, ipFamily)", Expect: "C43.samesubnet/store"},
 			{Name: "cross-subnet flag also set for always-encapsulated pools", File: "felix/calc/l3_route_resolver.go",
@@ -63,6 +65,14 @@ func runC43(c *Ctx) {
 	x.sameSubnet()
 	x.noEncap()
 	x.localBlock()
+	// Shared disciplines implemented in other properties' files, armed here under C43's id:
+	// the IPv4/IPv6 twin blocks of the route resolver (a v6 block testing v4 fields leaves IPv6 routes
+	// with a stale same-subnet flag), and the shared route manager retracting what it held for a
+	// destination before re-filing it (else a route whose pool changed encapsulation keeps its old path).
+	c.Rule("C43.twin", "E-PAIR", "IPv4/IPv6 twin blocks in felix/calc (L3 route resolver and siblings) substitute every identifier that has a V6 twin (c01Twin)", 17)
+	c.Alias("C01.twin", "C43.twin", func() { c01Twin(c, p) })
+	c.Rule("C43.retract", "E-GUARD/E-ORDER", "the IPIP/VXLAN/no-encap route manager forgets the destination of a RouteUpdate/RouteRemove before re-filing it, keyed by Dst only (c28Retract)", 7)
+	c.Alias("C28.retract", "C43.retract", func() { c28Retract(c, p) })
 }
 
 // c43Web walks phi edges from v and returns the non-phi leaves with the predecessor block of the edge they arrive on.
